@@ -324,7 +324,17 @@ class Engine:
     def build_goto(self, q, wd, witness):
         srcs = [os.path.join(VERIF, "harness", q.harness)]
         if not q.include_src:
-            srcs += [os.path.join(REPO, SRC[s]) for s in q.sources]
+            if q.tags.get("transform") == "rank":
+                # H-RANK: a copy of the CURRENT source with ranking obligations on its counting loops (tools/rank_instrument.py)
+                sys.path.insert(0, os.path.join(VERIF, "tools"))
+                import rank_instrument
+                for s in q.sources:
+                    t, k, rep = rank_instrument.transform(open(os.path.join(REPO, SRC[s])).read())
+                    dst = os.path.join(wd, "rank_" + os.path.basename(SRC[s]))
+                    open(dst, "w").write(t)
+                    srcs.append(dst)
+            else:
+                srcs += [os.path.join(REPO, SRC[s]) for s in q.sources]
         if q.arch == "arm":
             srcs.append(os.path.join(VERIF, "model", "stubinc", "libc_small.c"))
         srcs.append(os.path.join(VERIF, "model", "libc_extra.c"))    # bodies CBMC's library lacks (memchr, strnlen, ...)
